@@ -105,6 +105,10 @@ Proof.
 Qed.
 Lemma recent_only_with_backslash : recent_rejected_only_with_backslash = true.   (* the keyword recent is a valid flag *)
 Proof. reflexivity. Qed.
+(* the command builders never take a data character with a bare Advance(): every character is checked against a token class,
+   so no builder can step over the CR LF that ends a line *)
+Lemma builders_use_checked_tokens : builders_bare_advance_calls = 0 /\ parse_initial_advance_calls = 1.
+Proof. split; reflexivity. Qed.
 Lemma atom_char_eof : is_atom_char scan_eof = false.
 Proof. reflexivity. Qed.
 Lemma astring_char_eof : is_astring_char scan_eof = false.
